@@ -14,8 +14,14 @@ import CasbinModel.Config
   panic value — the crate's parsers take no indexing or slicing step that the model had to
   guard; the crate itself is fuzzed on every run.
 
-Not mechanised: continuation lines and trailing comments for whole model texts, and
-`to_text` (HashMap-ordered token replacement) — covered by the differential run.
+* **Whole texts**: a model text is a sequence of items (blank / comment line, `[header]`, `key = value` on one
+  line or continued on the next, each with blanks wherever blanks may stand); `Config::parse` of the text is the fold
+  of the items' meanings (`parse_items`, `parseConfig_items`), so two texts with the same headers and entries in the
+  same order parse to the same data (`text_layout_independent`, `model_text_layout_independent`).
+
+Not mechanised: values continued over more than two lines inside whole texts (single-step theorems
+`continuation_joins`, `continuation_skips_junk`), and `to_text` (HashMap-ordered token replacement) — covered by
+the differential run.
 -/
 namespace Casbin.C16
 open Casbin
@@ -333,5 +339,387 @@ example : addDef "e".toList "e".toList "some(where (p.eft == allow)) \n".toList 
     addDef "e".toList "e".toList "some(where (p.eft == allow))".toList :=
   trailing_blanks_ignored "e".toList "e".toList "some(where (p.eft == allow))".toList " \n".toList
     (by intro x hx; revert x; decide +kernel) (by intro x hx; revert x; decide +kernel)
+
+
+/-! ### a whole model text, whatever its layout -/
+
+def AllWs (ws : Str) : Prop := ∀ c ∈ ws, isWs c = true
+instance (ws : Str) : Decidable (AllWs ws) := by unfold AllWs; infer_instance
+
+/-- one line of a model text as it may be written -/
+inductive Item where
+  /-- a blank or comment line -/
+  | junk (l : Str)
+  /-- `[name]` with blanks around it -/
+  | header (ws1 name ws2 : Str)
+  /-- `key = value` with blanks at the four places blanks may stand -/
+  | entry (ws1 k ws2 ws3 v ws4 : Str)
+  /-- `key = v1 \` continued on the next line by `v2`, blanks before and after the backslash and around `v2` -/
+  | entryCont (ws1 k ws2 ws3 v1 wsA wsB wsC v2 wsD : Str)
+
+def Item.lines : Item → List Str
+  | .junk l => [l]
+  | .header ws1 name ws2 => [ws1 ++ ('[' :: name ++ [']']) ++ ws2]
+  | .entry ws1 k ws2 ws3 v ws4 => [ws1 ++ (k ++ ws2 ++ ['='] ++ ws3 ++ v) ++ ws4]
+  | .entryCont ws1 k ws2 ws3 v1 wsA wsB wsC v2 wsD =>
+    [ws1 ++ ((k ++ ws2 ++ ['='] ++ ws3 ++ v1) ++ wsA ++ ['\\']) ++ wsB, wsC ++ v2 ++ wsD]
+
+/-- what a key and a value must look like for the line to be *that* entry: non-empty, no blank at either
+end, no `=` in the key, the key not opening a comment or a header, the value not ending in a backslash
+(a continued value is the subject of `continuation_joins`) -/
+def Item.Ok : Item → Prop
+  | .junk l => IsJunk l
+  | .header ws1 _ ws2 => AllWs ws1 ∧ AllWs ws2
+  | .entry ws1 k ws2 ws3 v ws4 =>
+    AllWs ws1 ∧ AllWs ws2 ∧ AllWs ws3 ∧ AllWs ws4 ∧
+    (k ≠ [] ∧ '=' ∉ k ∧ (∀ c, k.head? = some c → isWs c = false) ∧ (∀ c, k.getLast? = some c → isWs c = false)) ∧
+    (v ≠ [] ∧ (∀ c, v.head? = some c → isWs c = false) ∧ (∀ c, v.getLast? = some c → isWs c = false)) ∧
+    (∀ c, k.head? = some c → c ≠ '#' ∧ c ≠ ';' ∧ c ≠ '[') ∧ v.getLast? ≠ some '\\'
+  | .entryCont ws1 k ws2 ws3 v1 wsA wsB wsC v2 wsD =>
+    AllWs ws1 ∧ AllWs ws2 ∧ AllWs ws3 ∧ AllWs wsA ∧ AllWs wsB ∧ AllWs wsC ∧ AllWs wsD ∧
+    (k ≠ [] ∧ '=' ∉ k ∧ (∀ c, k.head? = some c → isWs c = false) ∧ (∀ c, k.getLast? = some c → isWs c = false)) ∧
+    (v1 ≠ [] ∧ (∀ c, v1.head? = some c → isWs c = false) ∧ (∀ c, v1.getLast? = some c → isWs c = false)) ∧
+    (v2 ≠ [] ∧ (∀ c, v2.head? = some c → isWs c = false) ∧ (∀ c, v2.getLast? = some c → isWs c = false)) ∧
+    (∀ c, k.head? = some c → c ≠ '#' ∧ c ≠ ';' ∧ c ≠ '[') ∧
+    (∀ c, v2.head? = some c → c ≠ '#' ∧ c ≠ ';' ∧ c ≠ '[') ∧ v2.getLast? ≠ some '\\'
+
+/-- what the line means: the current section and the data so far -/
+def Item.step : Str × CfgData → Item → Str × CfgData
+  | (sec, d), .junk _ => (sec, d)
+  | (_, d), .header _ name _ => (name, d)
+  | (sec, d), .entry _ k _ _ v _ => (sec, addConfig d sec k v)
+  | (sec, d), .entryCont _ k _ _ v1 _ _ _ v2 _ => (sec, addConfig d sec k (v1 ++ v2))
+
+theorem trim_pad (ws1 s ws2 : Str) (h1 : AllWs ws1) (h2 : AllWs ws2) (hne : s ≠ [])
+    (hh : ∀ c, s.head? = some c → isWs c = false) (hl : ∀ c, s.getLast? = some c → isWs c = false) :
+    trim (ws1 ++ s ++ ws2) = s := by
+  unfold trim
+  have : trimL (ws1 ++ s ++ ws2) = s ++ ws2 := by
+    unfold trimL
+    rw [List.append_assoc, dw_append isWs ws1 _ h1]
+    cases s with
+    | nil => exact absurd rfl hne
+    | cons c t => simp [List.dropWhile, hh c rfl]
+  rw [this]
+  exact trimR_append_ws s ws2 h2 hl
+
+theorem last_bracket (name : Str) : ('[' :: name ++ [']']).getLast? = some ']' := List.getLast?_concat
+
+theorem last_bracket_cons (name : Str) : ('[' :: (name ++ [']'])).getLast? = some ']' := by
+  rw [← List.cons_append]; exact List.getLast?_concat
+
+theorem getLast?_append_ne {α : Type} (a b : List α) (h : b ≠ []) : (a ++ b).getLast? = b.getLast? := by
+  rw [List.getLast?_append]
+  cases hb : b.getLast? with
+  | none => exact absurd (List.getLast?_eq_none_iff.mp hb) h
+  | some c => simp
+
+theorem isWs_bracket : isWs '[' = false ∧ isWs ']' = false := by decide
+
+/-- a header line, trimmed, is `[name]` -/
+theorem trim_header (ws1 name ws2 : Str) (h1 : AllWs ws1) (h2 : AllWs ws2) :
+    trim (ws1 ++ ('[' :: name ++ [']']) ++ ws2) = '[' :: name ++ [']'] := by
+  apply trim_pad _ _ _ h1 h2 (by simp)
+  · intro c hc; simp at hc; subst hc; exact isWs_bracket.1
+  · intro c hc
+    rw [last_bracket] at hc; cases hc; exact isWs_bracket.2
+
+theorem header_is_section (name : Str) :
+    isSectionLine ('[' :: name ++ [']']) = true ∧ sectionName ('[' :: name ++ [']']) = name ∧
+    ('[' :: name ++ [']']).isEmpty = false ∧ isComment ('[' :: name ++ [']']) = false := by
+  refine ⟨by simp [isSectionLine, last_bracket_cons], ?_, by simp, by simp [isComment]⟩
+  unfold sectionName
+  simp
+
+/-- the part of an entry after the continuation loop: nothing to strip at the end, and `splitn(2, '=')` plus the
+two trims give back key and value -/
+theorem entry_tail (k ws2 ws3 v : Str) (h2 : AllWs ws2) (h3 : AllWs ws3)
+    (hk : k ≠ [] ∧ '=' ∉ k ∧ (∀ c, k.head? = some c → isWs c = false) ∧ (∀ c, k.getLast? = some c → isWs c = false))
+    (hv : v ≠ [] ∧ (∀ c, v.head? = some c → isWs c = false) ∧ (∀ c, v.getLast? = some c → isWs c = false))
+    (hvl : v.getLast? ≠ some '\\') :
+    ∃ p, splitEq (trimEndWsBackslash (k ++ ws2 ++ ['='] ++ ws3 ++ v)) = some p ∧ trim p.1 = k ∧ trim p.2 = v := by
+  have core_last : (k ++ ws2 ++ ['='] ++ ws3 ++ v).getLast? = v.getLast? := getLast?_append_ne _ _ hv.1
+  have e_trimEnd : trimEndWsBackslash (k ++ ws2 ++ ['='] ++ ws3 ++ v) = k ++ ws2 ++ ['='] ++ ws3 ++ v := by
+    unfold trimEndWsBackslash
+    obtain ⟨vl, hvl'⟩ : ∃ c, v.getLast? = some c := by
+      cases hg : v.getLast? with
+      | none => exact absurd (List.getLast?_eq_none_iff.mp hg) hv.1
+      | some c => exact ⟨c, rfl⟩
+    have hr : (k ++ ws2 ++ ['='] ++ ws3 ++ v).reverse.head? = some vl := by
+      rw [List.head?_reverse, core_last, hvl']
+    cases hrev : (k ++ ws2 ++ ['='] ++ ws3 ++ v).reverse with
+    | nil => rw [hrev] at hr; cases hr
+    | cons c t =>
+      rw [hrev] at hr; simp at hr; subst hr
+      have hcw : isWs c = false := hv.2.2 c hvl'
+      have hcb : c ≠ '\\' := by intro h; apply hvl; rw [hvl', h]
+      have : (c :: t).dropWhile (fun c => isWs c || c = '\\') = c :: t := by
+        simp [List.dropWhile, hcw, hcb]
+      rw [this, ← hrev, List.reverse_reverse]
+  have e_split := entry_spacing k v [] ws2 ws3 []
+    (by intro ws hws; simp at hws; rcases hws with h | h | h | h <;> subst h <;> first | assumption | (intro c hc; cases hc)) hk hv
+  rw [e_trimEnd]
+  cases hs : splitEq (k ++ ws2 ++ ['='] ++ ws3 ++ v) with
+  | none => rw [hs] at e_split; simp at e_split
+  | some p =>
+    rw [hs] at e_split
+    simp only [Option.map_some, Option.some.injEq, Prod.mk.injEq] at e_split
+    exact ⟨p, rfl, e_split.1, e_split.2⟩
+
+/-- **every line of a model text means what it says, whatever the layout**: parsing the lines of any
+sequence of well-formed items — continued values included — is folding their meanings -/
+theorem parse_items (items : List Item) (hok : ∀ i ∈ items, i.Ok) (sec : Str) (data : CfgData) (fuel : Nat)
+    (hf : items.length ≤ fuel) :
+    parseLines fuel (items.flatMap Item.lines) sec data = some (items.foldl Item.step (sec, data)).2 := by
+  induction items generalizing sec data fuel with
+  | nil => cases fuel <;> simp [parseLines]
+  | cons it rest ih =>
+    obtain ⟨f, rfl⟩ : ∃ f, fuel = f + 1 := ⟨fuel - 1, by simp at hf; omega⟩
+    have hf' : rest.length ≤ f := by simp at hf; omega
+    have hrest : ∀ i ∈ rest, i.Ok := fun i hi => hok i (by simp [hi])
+    have hit := hok it (by simp)
+    simp only [List.flatMap_cons, List.foldl_cons]
+    cases it with
+    | junk l =>
+      have : ((trim l).isEmpty || isComment (trim l)) = true := by
+        rcases hit with h | h <;> simp [h]
+      simp only [parseLines, Item.lines, List.singleton_append, this, if_true, Item.step]
+      exact ih hrest sec data f hf'
+    | header ws1 name ws2 =>
+      obtain ⟨h1, h2⟩ := hit
+      obtain ⟨a, b, c, d⟩ := header_is_section name
+      simp only [parseLines, Item.lines, List.singleton_append, trim_header ws1 name ws2 h1 h2, a, b, c, d, Bool.or_self,
+        Bool.false_eq_true, if_false, if_true, Item.step]
+      exact ih hrest name data f hf'
+    | entry ws1 k ws2 ws3 v ws4 =>
+      obtain ⟨h1, h2, h3, h4, hk, hv, hkh, hvl⟩ := hit
+      obtain ⟨k0, kt, hk0⟩ : ∃ c t, k = c :: t := by
+        cases hke : k with
+        | nil => exact absurd hke hk.1
+        | cons c t => exact ⟨c, t, rfl⟩
+      have core_ne : k ++ ws2 ++ ['='] ++ ws3 ++ v ≠ [] := by simp [hk0]
+      have core_head : ∀ c, (k ++ ws2 ++ ['='] ++ ws3 ++ v).head? = some c → isWs c = false := by
+        intro c hc; simp [hk0] at hc; subst hc; exact hk.2.2.1 k0 (by simp [hk0])
+      have core_last : (k ++ ws2 ++ ['='] ++ ws3 ++ v).getLast? = v.getLast? := getLast?_append_ne _ _ hv.1
+      have core_last' : ∀ c, (k ++ ws2 ++ ['='] ++ ws3 ++ v).getLast? = some c → isWs c = false := by
+        intro c hc; rw [core_last] at hc; exact hv.2.2 c hc
+      have ht : trim (ws1 ++ (k ++ ws2 ++ ['='] ++ ws3 ++ v) ++ ws4) = k ++ ws2 ++ ['='] ++ ws3 ++ v :=
+        trim_pad _ _ _ h1 h4 core_ne core_head core_last'
+      have hk0' := hkh k0 (by simp [hk0])
+      have e_empty : (k ++ ws2 ++ ['='] ++ ws3 ++ v).isEmpty = false := by simp [hk0]
+      have e_comment : isComment (k ++ ws2 ++ ['='] ++ ws3 ++ v) = false := by
+        simp [isComment, hk0, hk0'.1, hk0'.2.1]
+      have e_section : isSectionLine (k ++ ws2 ++ ['='] ++ ws3 ++ v) = false := by
+        simp [isSectionLine, hk0, hk0'.2.2]
+      have e_cont : contLoop ((rest.flatMap Item.lines).length + 1) (k ++ ws2 ++ ['='] ++ ws3 ++ v) (rest.flatMap Item.lines) []
+          = (k ++ ws2 ++ ['='] ++ ws3 ++ v, rest.flatMap Item.lines, []) := by
+        rw [contLoop]; rw [if_pos (by rw [core_last]; exact hvl)]
+      obtain ⟨p, hp, hp1, hp2⟩ := entry_tail k ws2 ws3 v h2 h3 hk hv hvl
+      simp only [parseLines, Item.lines, List.singleton_append, ht, e_empty, e_comment, e_section, Bool.or_self,
+        Bool.false_eq_true, if_false, e_cont, hp, hp1, hp2, Item.step, List.isEmpty_nil, if_true]
+      exact ih hrest sec (addConfig data sec k v) f hf'
+    | entryCont ws1 k ws2 ws3 v1 wsA wsB wsC v2 wsD =>
+      obtain ⟨h1, h2, h3, hA, hB, hC, hD, hk, hv1, hv2, hkh, hv2h, hv2l⟩ := hit
+      obtain ⟨k0, kt, hk0⟩ : ∃ c t, k = c :: t := by
+        cases hke : k with
+        | nil => exact absurd hke hk.1
+        | cons c t => exact ⟨c, t, rfl⟩
+      obtain ⟨c2, t2, hv20⟩ : ∃ c t, v2 = c :: t := by
+        cases hve : v2 with
+        | nil => exact absurd hve hv2.1
+        | cons c t => exact ⟨c, t, rfl⟩
+      -- the first physical line, trimmed
+      have l1_head : ∀ c, ((k ++ ws2 ++ ['='] ++ ws3 ++ v1) ++ wsA ++ ['\\']).head? = some c → isWs c = false := by
+        intro c hc; simp [hk0] at hc; subst hc; exact hk.2.2.1 k0 (by simp [hk0])
+      have l1_last : ∀ c, ((k ++ ws2 ++ ['='] ++ ws3 ++ v1) ++ wsA ++ ['\\']).getLast? = some c → isWs c = false := by
+        intro c hc; rw [List.getLast?_concat] at hc; cases hc; decide
+      have ht : trim (ws1 ++ ((k ++ ws2 ++ ['='] ++ ws3 ++ v1) ++ wsA ++ ['\\']) ++ wsB)
+          = (k ++ ws2 ++ ['='] ++ ws3 ++ v1) ++ wsA ++ ['\\'] :=
+        trim_pad _ _ _ h1 hB (by simp) l1_head l1_last
+      have hk0' := hkh k0 (by simp [hk0])
+      have e_empty : ((k ++ ws2 ++ ['='] ++ ws3 ++ v1) ++ wsA ++ ['\\']).isEmpty = false := by simp [hk0]
+      have e_comment : isComment ((k ++ ws2 ++ ['='] ++ ws3 ++ v1) ++ wsA ++ ['\\']) = false := by
+        simp [isComment, hk0, hk0'.1, hk0'.2.1]
+      have e_section : isSectionLine ((k ++ ws2 ++ ['='] ++ ws3 ++ v1) ++ wsA ++ ['\\']) = false := by
+        simp [isSectionLine, hk0, hk0'.2.2]
+      -- the continuation
+      have core1_last : ∀ c, (k ++ ws2 ++ ['='] ++ ws3 ++ v1).getLast? = some c → isWs c = false := by
+        intro c hc; rw [getLast?_append_ne _ _ hv1.1] at hc; exact hv1.2.2 c hc
+      have e_trimR : trimR ((k ++ ws2 ++ ['='] ++ ws3 ++ v1) ++ wsA) = k ++ ws2 ++ ['='] ++ ws3 ++ v1 :=
+        trimR_append_ws _ wsA hA core1_last
+      have e_trim2 : trim (wsC ++ v2 ++ wsD) = v2 := trim_pad _ _ _ hC hD hv2.1 hv2.2.1 hv2.2.2
+      have hc2 := hv2h c2 (by simp [hv20])
+      have joined_last : (k ++ ws2 ++ ['='] ++ ws3 ++ v1 ++ v2).getLast? = v2.getLast? := getLast?_append_ne _ _ hv2.1
+      have e_cont : contLoop (((wsC ++ v2 ++ wsD) :: rest.flatMap Item.lines).length + 1)
+            ((k ++ ws2 ++ ['='] ++ ws3 ++ v1) ++ wsA ++ ['\\']) ((wsC ++ v2 ++ wsD) :: rest.flatMap Item.lines) []
+          = (k ++ ws2 ++ ['='] ++ ws3 ++ v1 ++ v2, rest.flatMap Item.lines, []) := by
+        have := continuation_joins (rest.flatMap Item.lines).length ((k ++ ws2 ++ ['='] ++ ws3 ++ v1) ++ wsA)
+          (wsC ++ v2 ++ wsD) (rest.flatMap Item.lines) []
+          (by rw [e_trim2]; simp [hv20])
+          (by rw [e_trim2]; simp [isComment, hv20, hc2.1, hc2.2.1])
+          (by rw [e_trim2]; simp [isSectionLine, hv20, hc2.2.2])
+          (by rw [e_trimR, e_trim2, joined_last]; exact hv2l)
+        rw [e_trimR, e_trim2] at this
+        simpa using this
+      -- key and value of the joined line
+      have hv : (v1 ++ v2) ≠ [] ∧ (∀ c, (v1 ++ v2).head? = some c → isWs c = false) ∧
+          (∀ c, (v1 ++ v2).getLast? = some c → isWs c = false) := by
+        refine ⟨by simp [hv20], ?_, ?_⟩
+        · intro c hc
+          cases hv1e : v1 with
+          | nil => exact absurd hv1e hv1.1
+          | cons a b => rw [hv1e] at hc; simp at hc; subst hc; exact hv1.2.1 a (by simp [hv1e])
+        · intro c hc; rw [getLast?_append_ne _ _ hv2.1] at hc; exact hv2.2.2 c hc
+      have hvl : (v1 ++ v2).getLast? ≠ some '\\' := by rw [getLast?_append_ne _ _ hv2.1]; exact hv2l
+      obtain ⟨p, hp, hp1, hp2⟩ := entry_tail k ws2 ws3 (v1 ++ v2) h2 h3 hk hv hvl
+      have hassoc : k ++ ws2 ++ ['='] ++ ws3 ++ v1 ++ v2 = k ++ ws2 ++ ['='] ++ ws3 ++ (v1 ++ v2) := by
+        simp [List.append_assoc]
+      rw [← hassoc] at hp
+      simp only [parseLines, Item.lines, List.cons_append, List.nil_append, ht, e_empty, e_comment, e_section,
+        Bool.or_self, Bool.false_eq_true, if_false, e_cont, hp, hp1, hp2, Item.step, List.isEmpty_nil, if_true]
+      exact ih hrest sec (addConfig data sec k (v1 ++ v2)) f hf'
+
+/-- what a line contributes, layout forgotten -/
+def Item.content : Item → Option (Str ⊕ (Str × Str))
+  | .junk _ => none
+  | .header _ name _ => some (.inl name)
+  | .entry _ k _ _ v _ => some (.inr (k, v))
+  | .entryCont _ k _ _ v1 _ _ _ v2 _ => some (.inr (k, v1 ++ v2))
+
+def stepContent : Str × CfgData → Str ⊕ (Str × Str) → Str × CfgData
+  | (_, d), .inl name => (name, d)
+  | (sec, d), .inr (k, v) => (sec, addConfig d sec k v)
+
+theorem fold_content (items : List Item) (st : Str × CfgData) :
+    items.foldl Item.step st = (items.filterMap Item.content).foldl stepContent st := by
+  induction items generalizing st with
+  | nil => rfl
+  | cons it rest ih =>
+    obtain ⟨sec, d⟩ := st
+    cases it <;> simp [List.filterMap_cons, Item.content, Item.step, stepContent, ih]
+
+/-- **layout independence of a whole model text**: two line sequences that carry the same headers and entries in
+the same order — blank lines, comment lines and every blank around brackets, keys, `=` and values apart — parse to
+the same data. -/
+theorem text_layout_independent (a b : List Item) (ha : ∀ i ∈ a, i.Ok) (hb : ∀ i ∈ b, i.Ok)
+    (h : a.filterMap Item.content = b.filterMap Item.content) :
+    parseLines (a.length + 1) (a.flatMap Item.lines) [] [] = parseLines (b.length + 1) (b.flatMap Item.lines) [] [] := by
+  rw [parse_items a ha [] [] _ (by omega), parse_items b hb [] [] _ (by omega), fold_content, fold_content, h]
+
+/-! #### from lines to the text itself -/
+
+/-- lines joined by line feeds -/
+def joinLines : List Str → Str
+  | [] => []
+  | [l] => l
+  | l :: l2 :: ls => l ++ '\n' :: joinLines (l2 :: ls)
+
+theorem go_line (cur l : Str) (h : '\n' ∉ l) : splitLines.go cur l = [cur.reverse ++ l] := by
+  induction l generalizing cur with
+  | nil => simp [splitLines.go]
+  | cons c t ih =>
+    have hc : c ≠ '\n' := by intro hh; apply h; simp [hh]
+    have ht : '\n' ∉ t := by intro hh; apply h; simp [hh]
+    simp only [splitLines.go, hc, if_false]
+    rw [ih (c :: cur) ht]; simp
+
+theorem go_line_nl (cur l rest : Str) (h : '\n' ∉ l) :
+    splitLines.go cur (l ++ '\n' :: rest) = (cur.reverse ++ l) :: splitLines.go [] rest := by
+  induction l generalizing cur with
+  | nil => simp [splitLines.go]
+  | cons c t ih =>
+    have hc : c ≠ '\n' := by intro hh; apply h; simp [hh]
+    have ht : '\n' ∉ t := by intro hh; apply h; simp [hh]
+    simp only [List.cons_append, splitLines.go, hc, if_false]
+    rw [ih (c :: cur) ht]; simp
+
+/-- splitting the joined text gives the lines back -/
+theorem splitLines_join (l : Str) (ls : List Str) (h : ∀ x ∈ l :: ls, '\n' ∉ x) :
+    splitLines (joinLines (l :: ls)) = l :: ls := by
+  unfold splitLines
+  induction ls generalizing l with
+  | nil => simpa [joinLines] using go_line [] l (h l (by simp))
+  | cons l2 ls ih =>
+    simp only [joinLines]
+    rw [go_line_nl [] l _ (h l (by simp))]
+    simp only [List.reverse_nil, List.nil_append, List.cons.injEq, true_and]
+    exact ih l2 (fun x hx => h x (by simp at hx ⊢; exact Or.inr hx))
+
+theorem splitLines_join_ne (lines : List Str) (hne : lines ≠ []) (h : ∀ x ∈ lines, '\n' ∉ x) :
+    splitLines (joinLines lines) = lines := by
+  cases lines with
+  | nil => exact absurd rfl hne
+  | cons l ls => exact splitLines_join l ls h
+
+theorem lines_ne_nil (it : Item) : it.lines ≠ [] := by cases it <;> simp [Item.lines]
+
+/-- `Config::parse` on the text of a sequence of well-formed items is the fold of their meanings -/
+theorem parseConfig_items (it : Item) (items : List Item) (hok : ∀ i ∈ it :: items, i.Ok)
+    (hnl : ∀ i ∈ it :: items, ∀ l ∈ i.lines, '\n' ∉ l) :
+    parseConfig (joinLines ((it :: items).flatMap Item.lines)) = some ((it :: items).foldl Item.step ([], [])).2 := by
+  unfold parseConfig
+  rw [splitLines_join_ne _ (by simp [List.flatMap_cons, lines_ne_nil]) (by
+    intro x hx
+    obtain ⟨i, hi, hx⟩ := List.mem_flatMap.mp hx
+    exact hnl i hi x hx)]
+  exact parse_items (it :: items) hok [] [] _ (by
+    simp only [List.length_cons, List.flatMap_cons, List.length_append]
+    have h1 : 1 ≤ it.lines.length := by
+      cases h : it.lines with
+      | nil => exact absurd h (lines_ne_nil it)
+      | cons a b => simp
+    have h2 : items.length ≤ (items.flatMap Item.lines).length := by
+      clear hok hnl h1
+      induction items with
+      | nil => simp
+      | cons x xs ih =>
+        simp only [List.length_cons, List.flatMap_cons, List.length_append]
+        have : 1 ≤ x.lines.length := by
+          cases h : x.lines with
+          | nil => exact absurd h (lines_ne_nil x)
+          | cons a b => simp
+        omega
+    omega)
+
+/-- **layout independence, stated of the text**: two model texts that carry the same headers and entries in the same
+order parse to the same data, whatever blank lines, comment lines and blanks they contain, and whether a value is
+written on one line or continued on the next -/
+theorem model_text_layout_independent (a : Item) (as : List Item) (b : Item) (bs : List Item)
+    (ha : ∀ i ∈ a :: as, i.Ok) (hb : ∀ i ∈ b :: bs, i.Ok)
+    (hna : ∀ i ∈ a :: as, ∀ l ∈ i.lines, '\n' ∉ l) (hnb : ∀ i ∈ b :: bs, ∀ l ∈ i.lines, '\n' ∉ l)
+    (h : (a :: as).filterMap Item.content = (b :: bs).filterMap Item.content) :
+    parseConfig (joinLines ((a :: as).flatMap Item.lines)) = parseConfig (joinLines ((b :: bs).flatMap Item.lines)) := by
+  rw [parseConfig_items a as ha hna, parseConfig_items b bs hb hnb, fold_content, fold_content, h]
+
+def demoTight : List Item :=
+  [.header [] "request_definition".toList [], .entry [] "r".toList [' '] [' '] "sub, obj,act".toList []]
+def demoLoose : List Item :=
+  [.junk "# model".toList, .header "  ".toList "request_definition".toList " ".toList, .junk [],
+   .entryCont " ".toList "r".toList [] "\t ".toList "sub, obj,".toList " ".toList "  ".toList "    ".toList "act".toList "  ".toList]
+
+/-- non-vacuity: a request definition written tightly and written with comments, blank lines and blanks everywhere -/
+example :
+    parseLines (demoTight.length + 1) (demoTight.flatMap Item.lines) [] [] =
+    parseLines (demoLoose.length + 1) (demoLoose.flatMap Item.lines) [] [] := by
+  apply text_layout_independent
+  · intro i hi
+    simp only [demoTight, List.mem_cons, List.not_mem_nil, or_false] at hi
+    rcases hi with rfl | rfl
+    · exact ⟨by decide, by decide⟩
+    · exact ⟨by decide, by decide, by decide, by decide, by decide, by decide, by decide, by decide⟩
+  · intro i hi
+    simp only [demoLoose, List.mem_cons, List.not_mem_nil, or_false] at hi
+    rcases hi with rfl | rfl | rfl | rfl
+    · exact Or.inr (by decide)
+    · exact ⟨by decide, by decide⟩
+    · exact Or.inl (by decide)
+    · exact ⟨by decide, by decide, by decide, by decide, by decide, by decide, by decide, by decide, by decide, by decide,
+        by decide, by decide, by decide⟩
+  · decide
+
+/-- the same two layouts as texts -/
+example : joinLines (demoLoose.flatMap Item.lines) = "# model\n  [request_definition] \n\n r=\t sub, obj, \\  \n    act  ".toList := by decide
+example : parseConfig "[request_definition]\nr = sub, obj,act".toList =
+    parseConfig "# model\n  [request_definition] \n\n r=\t sub, obj, \\  \n    act  ".toList := by decide +kernel
 
 end Casbin.C16
